@@ -124,6 +124,7 @@ def run(atoms, levels, monitors, nested_tail=False, chunk=None, procs=None):
     frontier = list(states.values())
     all_hashes = set(states)
     stop_at = len(levels) - (1 if nested_tail and len(levels) > 1 else 0)
+    first_frontier = {}
     for li in range(stop_at):
         if not frontier:
             break
@@ -145,8 +146,11 @@ def run(atoms, levels, monitors, nested_tail=False, chunk=None, procs=None):
             all_hashes |= fresh
         per_depth.append(len(all_hashes) - sum(per_depth))
         frontier = list(new.values())
+        if li == 0:
+            first_frontier = dict(new)
     return {
         'atoms_dropped_uncompilable': dropped,
+        'frontier': first_frontier,
         'hashes': all_hashes,
         'violations': total.viol,
         'counts': total.counts,
